@@ -232,6 +232,8 @@ def ch3_drop_accounting(ctx, rep, arms=("BlockOnFull", "DropOldest", "DropLatest
     others = []
     for s_ in ctx.prog.sites():
         if A.metric_call(s_) == "action_dropped":
+            if (s_.body.j.get("impl_trait") or "").split("::")[-1].split("<")[0] == A._mt() and s_.body.j.get("name") == "action_dropped":
+                continue  # a Metrics impl forwarding the call to another Metrics object
             root = ctx.helper_root(s_.body)
             if s_.body.path != b.path and root.path != b.path and not s_.body.path.startswith(b.path):
                 others.append(s_)
